@@ -53,28 +53,28 @@ TIERS = {
 }
 FLOORS = {
     "quick": {
-        "programs": 700,
-        "compared": 12000,
-        "distinct_nontrivial": 400,
-        "core_runs_dispatched": 6000,
-        "core_runs_pinned": 5000,
-        "events_compared": 150000,
-        "dm_events_expected_on_dm_core": 5000,
-        "compute_events_expected_on_compute_core": 5000,
-        "dispatchable_events_filtered_out": 30000,
+        "programs": 500,
+        "compared": 15000,
+        "distinct_nontrivial": 600,
+        "core_runs_dispatched": 8000,
+        "core_runs_pinned": 6000,
+        "events_compared": 60000,
+        "dm_events_expected_on_dm_core": 12000,
+        "compute_events_expected_on_compute_core": 12000,
+        "dispatchable_events_filtered_out": 80000,
         "multi_block_programs": 80,
     },
     "thorough": {
-        "programs": 20000,
-        "compared": 330000,
-        "distinct_nontrivial": 8000,
-        "core_runs_dispatched": 160000,
-        "core_runs_pinned": 140000,
-        "events_compared": 4000000,
-        "dm_events_expected_on_dm_core": 140000,
-        "compute_events_expected_on_compute_core": 140000,
-        "dispatchable_events_filtered_out": 800000,
-        "multi_block_programs": 2200,
+        "programs": 15000,
+        "compared": 450000,
+        "distinct_nontrivial": 12000,
+        "core_runs_dispatched": 240000,
+        "core_runs_pinned": 180000,
+        "events_compared": 1800000,
+        "dm_events_expected_on_dm_core": 360000,
+        "compute_events_expected_on_compute_core": 360000,
+        "dispatchable_events_filtered_out": 2400000,
+        "multi_block_programs": 2400,
     },
 }
 CORE_COUNTS = (2, 3, 4, 8)
